@@ -836,6 +836,23 @@ fn gen_mcnk(rng: &mut Rng, p: &Protos, idx: usize, pat: u32, ntex: usize) -> Mcn
     m.doodad_refs = None;
     m.wmo_refs = None;
     m.doodad_disable = None;
+    // one in four chunks with references carries them as the two lists of the Cataclysm+ layout (MCRD, then MCRW) instead of
+    // the single MCRF list - the builder writes and the parser reads both layouts (after C14-r3m3): 1..3 doodad
+    // references followed by 0, 1 or 2 WMO references
+    if m.refs.is_some() && rng.chance(1, 4) {
+        let (d, w) = (1 + rng.usize(3), rng.usize(3));
+        let mut dr = wow_adt::chunks::mcnk::McrdChunk::default();
+        dr.doodad_refs = (0..d).map(|_| rng.below(50) as u32).collect();
+        m.doodad_refs = Some(dr);
+        if w > 0 {
+            let mut wr = wow_adt::chunks::mcnk::McrwChunk::default();
+            wr.wmo_refs = (0..w).map(|_| rng.below(50) as u32).collect();
+            m.wmo_refs = Some(wr);
+        }
+        m.refs = None;
+        m.header.n_doodad_refs = d as u32;
+        m.header.n_map_obj_refs = w as u32;
+    }
     m
 }
 
@@ -1553,7 +1570,10 @@ fn apply_edit(ch: &mut McnkChunk, pick: &EditPick, allowed: u32) -> (u32, u32) {
             "MCNR" => ed!(normals),
             "MCLY" => ed!(layers),
             "MCRF" => {
+                // the reference slot holds either MCRF or the MCRD / MCRW pair: edited as one
                 ed!(refs);
+                ed!(doodad_refs);
+                ed!(wmo_refs);
                 if !want {
                     (ch.header.n_doodad_refs, ch.header.n_map_obj_refs) = (0, 0);
                 } else if take {
